@@ -115,7 +115,7 @@ func knock(ts *TS, mgr *recMgr, addr string, after []byte, loginID uint32, waitS
 		conn.gateOff = len(data)
 		conn.gate = func(int) {
 			// hold EOF back until the login reply and the keep-alive reply were written
-			waitFor(8*time.Second, func() bool {
+			ok := waitFor(8*time.Second, func() bool {
 				w := conn.Written()
 				if len(w) <= 8 {
 					return false
@@ -129,6 +129,9 @@ func knock(ts *TS, mgr *recMgr, addr string, after []byte, loginID uint32, waitS
 				}
 				return got >= 2
 			})
+			if !ok {
+				stalls.Add(1)
+			}
 		}
 	}
 	t0 := time.Now()
@@ -206,6 +209,10 @@ func guestOnly() []sessAcct {
 
 func gateExpiryFamily(c *Case) {
 	r := c.R
+	if tooManyStalls() {
+		c.Dist("skipped/after-repeated-stalls")
+		return
+	}
 	accts := guestOnly()
 	ts, err := newTS(TSOpt{Accounts: acctSpecs(accts), Agreement: "a"})
 	if err != nil {
@@ -455,6 +462,10 @@ func b2i(b bool) int {
 
 func disconnectFamily(c *Case) {
 	r := c.R
+	if tooManyStalls() {
+		c.Dist("skipped/after-repeated-stalls")
+		return
+	}
 	rootPw := wirePassword(r, 10)
 	accts := []sessAcct{
 		{Login: "guest", Name: "Guest", PwWire: []byte{}, Access: guestAccess()},
@@ -495,17 +506,17 @@ func disconnectFamily(c *Case) {
 	}
 	admin := login(adminIP+":3000", "root", rootPw, "admin", 3)
 	if admin == nil {
-		c.Dist("skipped/fixture")
+		fixtureLoginFailed(c, "administrator login")
 		return
 	}
 	target := login(targetAddr, "", []byte{}, "target", 3)
 	if target == nil {
-		c.Dist("skipped/fixture")
+		fixtureLoginFailed(c, "target login")
 		return
 	}
 	bystander := login(otherIP+":4000", "", []byte{}, "bystander", 3)
 	if bystander == nil {
-		c.Dist("skipped/fixture")
+		fixtureLoginFailed(c, "bystander login")
 		return
 	}
 	var targetID [2]byte
